@@ -1470,6 +1470,21 @@ class ReceivePackHandler(PackHandler):
         """
         return len(sha) == len(zero_sha) and sha in self.repo.object_store
 
+    def _ref_matches(
+        self, ref: Ref, oldsha: ObjectID, zero_sha: ObjectID, follow: bool
+    ) -> bool:
+        """Check whether a ref currently holds the old value named by the client.
+
+        Reads the value the way the compare-and-swap will: ``set_if_equals``
+        follows symrefs, ``remove_if_equals`` does not; a missing ref reads
+        as the zero sha.
+        """
+        if follow:
+            value = self.repo.refs.follow(ref)[1]
+        else:
+            value = self.repo.refs.read_ref(ref)
+        return (value or zero_sha) == oldsha
+
     def _apply_pack(
         self, refs: list[tuple[ObjectID, ObjectID, Ref]]
     ) -> Iterator[tuple[bytes, bytes]]:
@@ -1543,6 +1558,11 @@ class ReceivePackHandler(PackHandler):
                                 )
                         elif not self._has_object(sha, zero_sha):
                             ref_status = b"missing necessary objects"
+                            has_failure = True
+                        if ref_status == b"ok" and not self._ref_matches(
+                            ref, oldsha, zero_sha, follow=sha != zero_sha
+                        ):
+                            ref_status = b"stale info"
                             has_failure = True
                     except KeyError:
                         ref_status = b"bad ref"
